@@ -138,6 +138,9 @@ func ConfigureServerAndConfig(s *fasthttp.Server, tlsConfig *tls.Config) *Server
 	s2 := &Server{
 		s: s,
 	}
+	// The zero ServerConfig is not a usable one: zero concurrent streams
+	// refuses every request.
+	s2.cnf.defaults()
 
 	s.NextProto(H2TLSProto, s2.ServeConn)
 	tlsConfig.NextProtos = append(tlsConfig.NextProtos, H2TLSProto)
